@@ -12,7 +12,7 @@ PROFILES = [["challenge-http-01"], ["challenge-http-01", "challenge-http-01-clea
             ["file-pre-create", "file-pre-edit", "file-post-create", "file-post-edit"], ["challenge-http-01-clean", "post-operation"],
             ["file-post-create", "file-post-edit", "challenge-http-01", "post-operation"], ["file-pre-create", "file-pre-edit", "challenge-http-01-clean"]]
 SHAPES = [["h1", "h2", "h3"], ["h3", "g1"], ["g1", "h3", "h1"], ["g2", "g1"], ["h2", "g2", "h2"], ["g1"]]
-GROUPS = [{"name": "g1", "hooks": ["h1", "g2"]}, {"name": "g2", "hooks": ["h2", "h1"]}]
+GROUPS = [{"name": "g1", "hooks": ["h1", "g2", "h3"]}, {"name": "g2", "hooks": ["h2", "h1"]}]      # as MCGroups in Hooks.tla
 KEBAB = {"FilePreCreate": "file-pre-create", "FilePostCreate": "file-post-create", "FilePreEdit": "file-pre-edit", "FilePostEdit": "file-post-edit",
          "ChallengeHttp01": "challenge-http-01", "ChallengeHttp01Clean": "challenge-http-01-clean", "ChallengeDns01": "challenge-dns-01",
          "ChallengeDns01Clean": "challenge-dns-01-clean", "ChallengeTlsAlpn01": "challenge-tls-alpn-01",
